@@ -220,9 +220,28 @@ func CollectTwin(log *TwinLog) func(w *World, c *Call) {
 		}
 		// the policy of the environment the session ran this sprint under (what a judge of the pair
 		// needs to know: differences are only forbidden while the policy is on)
+		// (what the host handed in decides, not what the session says it holds afterwards)
 		policy := "none"
-		if c.Session != nil && c.Session.Environment() != nil && c.Session.Environment().RedactionPolicy() == envs.RedactionPolicyURNs {
+		var carried struct {
+			Environment *struct {
+				RedactionPolicy string `json:"redaction_policy"`
+			} `json:"environment"`
+		}
+		if c.Kind == "start" || resumeAccepted(c) {
+			json.Unmarshal(c.InputJSON, &carried)
+		}
+		if carried.Environment == nil {
+			// nothing handed in, or a resume the session refused (it applies and evaluates nothing)
+			json.Unmarshal(c.Before, &carried)
+		}
+		if carried.Environment != nil && carried.Environment.RedactionPolicy == "urns" {
 			policy = "urns"
+		}
+		if callOK(c) && c.Session != nil && c.Session.Environment() != nil && (c.Kind == "start" || resumeAccepted(c)) {
+			// (a resume the session refuses - limit reached, nothing waiting - applies nothing and evaluates nothing)
+			if got := string(c.Session.Environment().RedactionPolicy()); (got == "urns") != (policy == "urns") {
+				w.Violate("C19", "policy-applied", "C19.policy-not-applied/"+c.Kind+"-"+c.ResumeType+"/"+w.Cfg.Prop, fmt.Sprintf("the %s handed the session an environment with redaction policy %q, afterwards the session's environment has %q", c.Kind, policy, got))
+			}
 		}
 		log.add(fmt.Sprintf("call%d/policy", c.N), policy)
 		// what the call started from, minus the fields that are URNs by contract: twins whose stored
